@@ -57,7 +57,7 @@ pub fn run(tier: &str, seed: u64, widen: bool) -> Report {
     let mut rep = Report::new(
         "C01",
         "real capy CLI + built executable (stdout, exit status) vs the Lean reference interpreter CapyV.Core.run on generated well-typed programs",
-        "seeded type-directed generator of CapyCore programs: 0-3 helper functions + main, 0-2 structs, integers of every width 8-64 and both signednesses, bool, arrays (nested), optionals, structs (nested), let/assign/compound assign through field and index paths, if/else, bounded while loops, labelled blocks, break/continue/return, defers, casts, calls with aggregate arguments and results, #unwrap/#is_variant, occasional runtime faults (index in [0,len+4], wrong unwrap) in main; non-trivial = program has >= 8 statements; distinct by source text",
+        "seeded type-directed generator of CapyCore programs: 0-3 helper functions + main, 0-2 structs, 0-2 enums, integers of every width 8-64 and both signednesses, bool, arrays (nested), optionals, structs (nested), enums with payloads, error unions, switch, .try, let/assign/compound assign through field and index paths, if/else, bounded while loops, labelled blocks, break/continue/return, defers, casts, calls with aggregate arguments and results, #unwrap/#is_variant; pointers (^T/^mut T of locals, fields, elements; reads and writes through them; pointer parameters whose callee reads/writes the caller's cell; pointers in structs and optionals; two names for one cell used alternately), slices ([]T of array places, .len, indexing, writes through, slice parameters, [N]T.(slice)), function values in locals, bounded self-recursion (also passing a pointer to the activation's own local down), char; occasional runtime faults (array/slice index out of range, wrong unwrap) in main; non-trivial = program has >= 12 lines; distinct by source text; `feature:*` histogram entries count programs using a construct (static), `observed:slice-index-out-of-bounds` counts runs aborted by the slice bounds check",
     );
     if !e2e::available() {
         rep.notes.push("capy CLI binary missing".into());
@@ -72,11 +72,28 @@ pub fn run(tier: &str, seed: u64, widen: bool) -> Report {
     let outcomes = e2e::run_all(&e2e_progs, e2e::Limits::default());
     let reqs: Vec<String> = progs.iter().map(|p| format!("CORE run {FUEL} {}", p.sexp())).collect();
     let answers = lean::ask(&reqs);
+    // the value-only interpreter `CapyV.Core` (object of C16's substitution lemma) on the programs
+    // of its fragment: `agree` / `differ:<its answer>` / `n/a`
+    let xreqs: Vec<String> = progs.iter().map(|p| format!("CORE xcheck {FUEL} {}", p.sexp())).collect();
+    let xanswers = lean::ask(&xreqs);
+    for (p, x) in progs.iter().zip(xanswers.iter()) {
+        let kind = x.split(':').next().unwrap_or("?");
+        rep.hit(&format!("v1-interpreter:{kind}"));
+        if kind == "differ" && rep.notes.len() < 8 {
+            rep.notes.push(format!("CapyV.Core (value-only interpreter) answers {} where CapyV.CoreMem answers otherwise: {}", &x[7.min(x.len())..], p.capy().replace('\n', " ")));
+        }
+        for l in p.features().labels() {
+            rep.hit(&format!("feature:{l}"));
+        }
+    }
     for (((p, src), out), model) in progs.iter().zip(sources.iter()).zip(outcomes.iter()).zip(answers.iter()) {
         let nstmts = src.lines().count();
         rep.case(if nstmts >= 12 { Some(src.clone()) } else { None });
         let got = observe(out);
         let _ = p;
+        if out.built && out.stdout().contains("slice index out of bounds") {
+            rep.hit("observed:slice-index-out-of-bounds");
+        }
         let status_kind = model.split('|').next().unwrap_or("").split('=').next().unwrap_or("").to_string();
         rep.hit(&format!("expected:{}", status_kind));
         if model == "?" {
